@@ -24,13 +24,33 @@
 (*                 two-word design are told apart from the fixed defect    *)
 (*  ExclusiveProbe with no probe number, an admitted request either read   *)
 (*                 Closed or is the goroutine that swapped O->H            *)
+(*                                                                         *)
+(* RULE RELOADS (spec/BreakerConcReload.tla).  reload(thr) = the loader    *)
+(* called circuitbreaker.LoadRules between two steps: with the threshold   *)
+(* in force nothing changes (the object is kept); with another threshold   *)
+(* (statistic-reusable rule) a NEW breaker object is in service from then  *)
+(* on.  Objects are told apart by the threshold of the rule the listener   *)
+(* is handed.  A goroutine acts on the object that was in service when it  *)
+(* fetched the breaker list: in its step from "start" (Entry, TryPass) and *)
+(* again in its step from "drv.exit" (Exit, OnRequestComplete).            *)
+(* Every clause above is demanded PER OBJECT: the transitions reported for *)
+(* an object form a legal path from the initial state of THAT object, no   *)
+(* O->H swap of an object compared the deadline before (instant that       *)
+(* object was swapped to Open) + timeout, probes are exclusive per object; *)
+(* every report names an object that exists and on which the reporting     *)
+(* goroutine is operating.  Initial state of a new object: Closed (what    *)
+(* the code does) or - not excluded by C12 - the state, with its opening   *)
+(* instant, that the replaced object had at the instant of the reload      *)
+(* according to the reports (inheritance by value).  So "the breaker in    *)
+(* service is open, nobody is admitted before a full timeout since IT      *)
+(* opened" is judged on the object the admitted request went through.      *)
 (***************************************************************************)
 EXTENDS Integers, Sequences, FiniteSets, TLC, Json
 
 Trace == ndJsonDeserialize("trace.ndjson")
 
-VARIABLES l, g, seq, lastCas, lastDl, firstGet, prev, trans, admits, failed
-tvars == <<l, g, seq, lastCas, lastDl, firstGet, prev, trans, admits, failed>>
+VARIABLES l, g, seq, lastCas, lastDl, firstGet, prev, trans, admits, failed, svc, objs, opOb, tpOb, wrongOb
+tvars == <<l, g, seq, lastCas, lastDl, firstGet, prev, trans, admits, failed, svc, objs, opOb, tpOb, wrongOb>>
 
 Ev == Trace[l]
 IsEvent(op) == l <= Len(Trace) /\ Ev.op = op /\ l' = l + 1
@@ -39,28 +59,53 @@ Edges == {<<"C", "O">>, <<"O", "H">>, <<"H", "O">>, <<"H", "C">>}
 
 S0 == IF g.initopen THEN "O" ELSE "C"
 Sorted(tr) == SortSeq(tr, LAMBDA a, b : a.casSeq < b.casSeq)
+ThrOf(e) == IF "thr" \in DOMAIN e THEN e.thr ELSE 1
 
-LegalPath(S) ==
+LegalPath(S, s0) ==
     /\ \A k \in 1..Len(S) : /\ <<S[k].from, S[k].to>> \in Edges
-                            /\ S[k].from = (IF k = 1 THEN S0 ELSE S[k-1].to)
+                            /\ S[k].from = (IF k = 1 THEN s0 ELSE S[k-1].to)
     /\ \A i, j \in 1..Len(S) : i < j => S[i].casSeq # S[j].casSeq
-OpenedAt(S, k) == IF k = 1 THEN g.t0 ELSE S[k-1].casT
-NoEarlyProbe(S) == \A k \in 1..Len(S) : S[k].to = "H" => S[k].dlT >= OpenedAt(S, k) + g.timeout
-PublishedAt(S, k) == IF k = 1 THEN g.t0 ELSE S[k-1].pubT
+OpenedAt(S, k, t0) == IF k = 1 THEN t0 ELSE S[k-1].casT
+NoEarlyProbe(S, t0) == \A k \in 1..Len(S) : S[k].to = "H" => S[k].dlT >= OpenedAt(S, k, t0) + g.timeout
+PublishedAt(S, k, p0) == IF k = 1 THEN p0 ELSE S[k-1].pubT
 \* why an O->H swap is early: "stale" = its deadline compare precedes the swap that (re)opened the breaker (ABA);
 \* "stalled" = it honoured the deadline the opener had published in the step right before its swap, but the opener
 \* was parked for a whole timeout in between; "unpublished" = it saw Open with a deadline not yet published for
 \* this opening (what the fix "publish the retry deadline before the state swap" removes)
-EarlyClass(S, k) ==
-    IF S[k].to # "H" \/ S[k].dlT >= OpenedAt(S, k) + g.timeout THEN "ok"
+EarlyClass(S, k, t0, p0) ==
+    IF S[k].to # "H" \/ S[k].dlT >= OpenedAt(S, k, t0) + g.timeout THEN "ok"
     ELSE IF k > 1 /\ S[k].dlSeq < S[k-1].casSeq THEN "stale"
-    ELSE IF PublishedAt(S, k) >= 0 /\ S[k].dlT >= PublishedAt(S, k) + g.timeout THEN "stalled"
+    ELSE IF PublishedAt(S, k, p0) >= 0 /\ S[k].dlT >= PublishedAt(S, k, p0) + g.timeout THEN "stalled"
     ELSE "unpublished"
-EarlyClasses(S) == { EarlyClass(S, k) : k \in 1..Len(S) } \ {"ok"}
-StateAt(S, q) == LET B == { k \in 1..Len(S) : S[k].casSeq < q } IN
-                 IF B = {} THEN S0 ELSE S[CHOOSE k \in B : \A j \in B : j <= k].to
-ExclusiveProbe(S) == g.probenum = 0 =>
-    \A p \in admits : StateAt(S, firstGet[p]) = "C" \/ \E k \in 1..Len(S) : S[k].p = p /\ S[k].to = "H"
+EarlyClasses(S, t0, p0) == { EarlyClass(S, k, t0, p0) : k \in 1..Len(S) } \ {"ok"}
+Before(S, q) == { k \in 1..Len(S) : S[k].casSeq < q }
+LastBefore(S, q) == CHOOSE k \in Before(S, q) : \A j \in Before(S, q) : j <= k
+StateAt(S, q, s0) == IF Before(S, q) = {} THEN s0 ELSE S[LastBefore(S, q)].to
+
+\* ---- breaker objects (index = order of creation; objs[b] = [thr, seq = number of steps before its creation])
+ObjIdx == 1..Len(objs)
+SOf(b) == Sorted(SelectSeq(trans, LAMBDA x : x.b = objs[b].thr))
+IdxOf(thr) == CHOOSE b \in ObjIdx : objs[b].thr = thr
+\* candidate initial conditions of object b: [st, t0 = instant it was opened, pub = instant that deadline was published]
+Inits(b) ==
+    IF b = 1 THEN {[st |-> S0, t0 |-> g.t0, pub |-> g.t0]}
+    ELSE LET P == SOf(b - 1)
+             q == objs[b].seq + 1
+             s0 == IF b - 1 = 1 THEN S0 ELSE "C" IN
+         {[st |-> "C", t0 |-> 0, pub |-> -1]} \cup
+         (IF Before(P, q) = {} THEN {[st |-> s0, t0 |-> g.t0, pub |-> g.t0]}
+          ELSE {[st |-> P[LastBefore(P, q)].to, t0 |-> P[LastBefore(P, q)].casT, pub |-> P[LastBefore(P, q)].pubT]})
+Excl(b, s0) == g.probenum = 0 =>
+    \A p \in admits : tpOb[p] = objs[b].thr =>
+        StateAt(SOf(b), firstGet[p], s0) = "C" \/ \E k \in 1..Len(SOf(b)) : SOf(b)[k].p = p /\ SOf(b)[k].to = "H"
+ObjOKWith(b, i) == LegalPath(SOf(b), i.st) /\ NoEarlyProbe(SOf(b), i.t0) /\ Excl(b, i.st)
+ObjOK(b) == \E i \in Inits(b) : ObjOKWith(b, i)
+\* the initial condition the report is made for: one under which everything holds, else one with a legal path, else Closed
+Pick(b) == IF ObjOK(b) THEN CHOOSE i \in Inits(b) : ObjOKWith(b, i)
+           ELSE IF \E i \in Inits(b) : LegalPath(SOf(b), i.st) THEN CHOOSE i \in Inits(b) : LegalPath(SOf(b), i.st)
+           ELSE CHOOSE i \in Inits(b) : b = 1 \/ i.pub = -1
+\* every report names a breaker object that exists
+KnownObjs == \A k \in 1..Len(trans) : \E b \in ObjIdx : objs[b].thr = trans[k].b
 
 Judge(ok, expected) ==
     IF failed \/ ok THEN failed' = failed
@@ -75,6 +120,9 @@ TNew ==
     /\ lastDl' = [p \in Procs |-> [seq |-> 0, t |-> 0]]
     /\ firstGet' = [p \in Procs |-> 0]
     /\ prev' = [p \in Procs |-> [at |-> "", t |-> 0]]
+    /\ svc' = ThrOf(Ev) /\ objs' = << [thr |-> ThrOf(Ev), seq |-> 0] >>
+    /\ opOb' = [p \in Procs |-> ThrOf(Ev)] /\ tpOb' = [p \in Procs |-> ThrOf(Ev)]
+    /\ wrongOb' = FALSE
     /\ failed' = FALSE
 
 TStep ==
@@ -88,41 +136,58 @@ TStep ==
     /\ prev' = [prev EXCEPT ![Ev.p] = [at |-> Ev.at, t |-> Ev.now]]
     /\ lastDl' = IF Ev.at = "cb.deadline.load" THEN [lastDl EXCEPT ![Ev.p] = [seq |-> seq + 1, t |-> Ev.now]] ELSE lastDl
     /\ firstGet' = IF Ev.at = "cb.get" /\ firstGet[Ev.p] = 0 THEN [firstGet EXCEPT ![Ev.p] = seq + 1] ELSE firstGet
-    /\ UNCHANGED <<g, trans, admits, failed>>
+    \* the breaker list is fetched in the step from "start" (Entry) and in the step from "drv.exit" (Exit)
+    /\ opOb' = IF Ev.at \in {"start", "drv.exit"} THEN [opOb EXCEPT ![Ev.p] = svc] ELSE opOb
+    /\ tpOb' = IF Ev.at = "start" THEN [tpOb EXCEPT ![Ev.p] = svc] ELSE tpOb
+    /\ UNCHANGED <<g, trans, admits, failed, svc, objs, wrongOb>>
 
-TTick == IsEvent("tick") /\ UNCHANGED <<g, seq, lastCas, lastDl, firstGet, prev, trans, admits, failed>>
+TTick == IsEvent("tick") /\ UNCHANGED <<g, seq, lastCas, lastDl, firstGet, prev, trans, admits, failed, svc, objs, opOb, tpOb, wrongOb>>
+
+\* the loader replaced the rule between two steps: another threshold = a new object is in service
+TReload ==
+    /\ IsEvent("reload")
+    /\ svc' = Ev.thr
+    /\ objs' = IF Ev.thr = svc THEN objs ELSE Append(objs, [thr |-> Ev.thr, seq |-> seq])
+    /\ UNCHANGED <<g, seq, lastCas, lastDl, firstGet, prev, trans, admits, failed, opOb, tpOb, wrongOb>>
 
 TListen ==
     /\ IsEvent("listen")
-    /\ trans' = Append(trans, [p |-> Ev.p, from |-> Ev.from, to |-> Ev.to,
+    /\ trans' = Append(trans, [p |-> Ev.p, from |-> Ev.from, to |-> Ev.to, b |-> ThrOf(Ev),
                                casSeq |-> lastCas[Ev.p].seq, casT |-> lastCas[Ev.p].t, pubT |-> lastCas[Ev.p].pubT,
                                dlT |-> lastDl[Ev.p].t, dlSeq |-> lastDl[Ev.p].seq])
-    /\ UNCHANGED <<g, seq, lastCas, lastDl, firstGet, prev, admits, failed>>
+    /\ wrongOb' = (wrongOb \/ (Ev.p \in Procs /\ ThrOf(Ev) # opOb[Ev.p]) \/ Ev.p \notin Procs)
+    /\ UNCHANGED <<g, seq, lastCas, lastDl, firstGet, prev, admits, failed, svc, objs, opOb, tpOb>>
 
 TRet ==
     /\ IsEvent("ret")
     /\ admits' = IF Ev.kind = "entry" /\ Ev.pass THEN admits \cup {Ev.p} ELSE admits
-    /\ UNCHANGED <<g, seq, lastCas, lastDl, firstGet, prev, trans, failed>>
+    /\ UNCHANGED <<g, seq, lastCas, lastDl, firstGet, prev, trans, failed, svc, objs, opOb, tpOb, wrongOb>>
 
 \* a panic escaping Entry / Exit is never acceptable
 TPanic ==
     /\ IsEvent("panic")
     /\ Judge(FALSE, [panic |-> TRUE])
-    /\ UNCHANGED <<g, seq, lastCas, lastDl, firstGet, prev, trans, admits>>
+    /\ UNCHANGED <<g, seq, lastCas, lastDl, firstGet, prev, trans, admits, svc, objs, opOb, tpOb, wrongOb>>
 
 TEnd ==
     /\ IsEvent("end")
-    /\ LET S == Sorted(trans) IN
-       Judge(LegalPath(S) /\ NoEarlyProbe(S) /\ ExclusiveProbe(S),
-             [legal |-> LegalPath(S), noearly |-> NoEarlyProbe(S), early |-> EarlyClasses(S),
-              exclusive |-> ExclusiveProbe(S), path |-> S])
-    /\ UNCHANGED <<g, seq, lastCas, lastDl, firstGet, prev, trans, admits>>
+    /\ LET known == KnownObjs /\ ~wrongOb IN
+       Judge(known /\ \A b \in ObjIdx : ObjOK(b),
+             [objects |-> known,
+              legal |-> \A b \in ObjIdx : LegalPath(SOf(b), Pick(b).st),
+              noearly |-> \A b \in ObjIdx : NoEarlyProbe(SOf(b), Pick(b).t0),
+              early |-> UNION { EarlyClasses(SOf(b), Pick(b).t0, Pick(b).pub) : b \in ObjIdx },
+              exclusive |-> \A b \in ObjIdx : Excl(b, Pick(b).st),
+              breakers |-> [b \in ObjIdx |-> [thr |-> objs[b].thr, init |-> Pick(b).st, path |-> SOf(b)]]])
+    /\ UNCHANGED <<g, seq, lastCas, lastDl, firstGet, prev, trans, admits, svc, objs, opOb, tpOb, wrongOb>>
 
 TInit == /\ l = 1 /\ seq = 0 /\ trans = << >> /\ admits = {} /\ failed = FALSE
          /\ g = [tr |-> 0, timeout |-> 0, probenum |-> 0, initopen |-> FALSE, t0 |-> 0]
          /\ lastCas = [p \in Procs |-> [seq |-> 0, t |-> 0, pubT |-> -1]]
          /\ lastDl = [p \in Procs |-> [seq |-> 0, t |-> 0]] /\ firstGet = [p \in Procs |-> 0]
          /\ prev = [p \in Procs |-> [at |-> "", t |-> 0]]
-TNext == TNew \/ TStep \/ TTick \/ TListen \/ TRet \/ TPanic \/ TEnd
+         /\ svc = 1 /\ objs = << [thr |-> 1, seq |-> 0] >>
+         /\ opOb = [p \in Procs |-> 1] /\ tpOb = [p \in Procs |-> 1] /\ wrongOb = FALSE
+TNext == TNew \/ TStep \/ TTick \/ TReload \/ TListen \/ TRet \/ TPanic \/ TEnd
 TSpec == TInit /\ [][TNext]_tvars
 =============================================================================
